@@ -151,6 +151,25 @@ theorem filter_built_as_configured (compiles : Str → Bool) (ty : Str) (us gs :
     (newFilter compiles ty us gs).allow = decide (lower (newFilter compiles ty us gs).cfgType ≠ sDeny) :=
   newFilter_allow compiles ty us gs
 
+/-- A configured list — users or groups — none of whose entries is usable (`NoUsable`: not empty, no entry is a valid
+    name, a single entry is not a regular expression either; e.g. users [al*, bo*], groups [dev@corp, ops@corp], which
+    pass the configuration check) still makes the filter non-empty, and the filter matches nobody: an allow filter
+    admits nobody, a deny filter denies nobody. For users and groups (each list absent or without a usable entry, at
+    least one configured), every type, oracle and user. -/
+theorem filter_list_without_usable_entries (compiles : Str → Bool) (ty : Str) (us gs : List Str) (u : User)
+    (hu : us = [] ∨ NoUsable cfgUserValid us) (hg : gs = [] ∨ NoUsable cfgGroupValid gs) (hne : us ≠ [] ∨ gs ≠ []) :
+    (newFilter compiles ty us gs).empty = false ∧
+    (newFilter compiles ty us gs).allowUser rx u = !(newFilter compiles ty us gs).allow :=
+  filter_noUsable compiles rx ty us gs u hu hg hne
+
+/-- non-vacuity: users [al*, bo*] with type allow admits nobody, groups [dev@corp, ops@corp] with type deny denies
+    nobody; one usable entry among them and the filter works on that entry -/
+example : (newFilter (fun _ => true) "allow".toList ["al*".toList, "bo*".toList] []).allowUser (fun _ _ => true) exUser = false := by decide
+example : (newFilter (fun _ => true) "deny".toList [] ["dev@corp".toList, "ops@corp".toList]).allowUser (fun _ _ => true) exUser = true := by decide
+example : (newFilter (fun _ => true) "allow".toList ["al*".toList, "bob".toList] []).allowUser (fun _ _ => true) exUser = true := by decide
+example : NoUsable cfgUserValid ["al*".toList, "bo*".toList] ∧ NoUsable cfgGroupValid ["dev@corp".toList, "".toList] := by
+  refine ⟨⟨by decide, by decide, by intro x h; cases h⟩, ⟨by decide, by decide, by intro x h; cases h⟩⟩
+
 /-- regression (former finding C17.F1): an empty filter of type Deny denies everybody -/
 example : (newFilter (fun _ => true) ['D', 'e', 'n', 'y'] [] []).allowUser (fun _ _ => false) exUser = false := by decide
 
